@@ -40,7 +40,7 @@ import (
 	"strings"
 )
 
-const version = "hazards-v14"
+const version = "hazards-v15"
 
 var scopeDirs = []string{"app", "x", "adapter", "syscontracts", "types", "ibc"}
 
@@ -56,10 +56,21 @@ type hazard struct {
 
 // the ETH seal verification's environment touch points, regenerated: fields of the Config literal(s) and arguments of
 // the VerifySeal call(s) in eth/types/header.go VerifyCascadingFields
-var ethConfig [][2]string
-var ethSealArgs []string
+// Every construction of the ethash engine (call of the package's New) and every call of (*Ethash).VerifySeal outside the
+// vendored engine files: where it is, the fields of the Config it is given (resolved through a local or package-level
+// variable assigned once and through a call of a parameterless same-package function that just returns the value), and
+// the arguments of VerifySeal.
+type ethUse struct {
+	Where  string
+	Fields [][2]string
+}
 
-const ethHeaderFile = "x/xibc/clients/light-clients/eth/types/header.go"
+var ethNewUses []ethUse
+var ethSealUses []ethUse
+
+const ethPkgDir = "x/xibc/clients/light-clients/eth/types"
+
+var ethEngineFiles = map[string]bool{"ethash.go": true, "sealer.go": true, "algorithm.go": true, "verify_header.go": true}
 
 func die(f string, a ...interface{}) {
 	fmt.Fprintf(os.Stderr, "hazards: "+f+"\n", a...)
@@ -229,6 +240,9 @@ func main() {
 			}
 		}}
 		conf.Check(ip, fset, asts, info)
+		if filepath.ToSlash(d) == ethPkgDir {
+			ethAnalysis(fset, asts, info, d)
+		}
 		for _, f := range asts {
 			rel, ok := inv[f]
 			if !ok {
@@ -298,15 +312,20 @@ func main() {
 		}
 		fmt.Fprintf(&b, "  (%s, %s)%s\n", q(m[0]), q(m[1]), sep)
 	}
-	fmt.Fprintf(&b, "].\n\n(* ETH seal verification (eth/types/header.go VerifyCascadingFields): fields of the ethash Config literal and the\n   arguments of the VerifySeal call, as written *)\n")
-	var cfg, sargs []string
-	for _, kv := range ethConfig {
-		cfg = append(cfg, fmt.Sprintf("(%s, %s)", q(kv[0]), q(kv[1])))
+	fmt.Fprintf(&b, "].\n\n(* ETH seal verification: every construction of the ethash engine outside the engine's own files (place, fields of the\n   Config it receives — resolved through once-assigned variables and parameterless helper functions; \"?\" = not resolved)\n   and every call of VerifySeal outside them (place, arguments by position) *)\n")
+	emitUses := func(name string, uses []ethUse) {
+		var rows []string
+		for _, u := range uses {
+			var fs []string
+			for _, kv := range u.Fields {
+				fs = append(fs, fmt.Sprintf("(%s, %s)", q(kv[0]), q(kv[1])))
+			}
+			rows = append(rows, fmt.Sprintf("(%s, %s)", q(u.Where), coqList(fs)))
+		}
+		fmt.Fprintf(&b, "Definition %s : list (string * list (string * string)) := %s.\n", name, coqList(rows))
 	}
-	for _, a := range ethSealArgs {
-		sargs = append(sargs, q(a))
-	}
-	fmt.Fprintf(&b, "Definition eth_verify_config : list (string * string) := %s.\nDefinition eth_verify_seal_args : list string := %s.\n", coqList(cfg), coqList(sargs))
+	emitUses("eth_engine_constructions", ethNewUses)
+	emitUses("eth_verify_seal_calls", ethSealUses)
 	fmt.Fprintf(&b, "\n(* every other construct whose value is not a function of the block inputs:\n   (file, function, kind, detail, number of occurrences in that function) *)\n")
 	fmt.Fprintf(&b, "Definition other_hazards : list (string * string * string * string * N) := [\n")
 	for i, z := range hazards {
@@ -481,29 +500,6 @@ func (w *walker) walkFile(f *ast.File) {
 			fsum := sha256.Sum256([]byte(w.norm(&ast.FuncDecl{Recv: d.Recv, Name: d.Name, Type: d.Type, Body: d.Body})))
 			w.fnHash = hex.EncodeToString(fsum[:8])
 			w.body = d.Body
-			if w.file == ethHeaderFile && d.Name.Name == "VerifyCascadingFields" && d.Body != nil {
-				ast.Inspect(d.Body, func(m ast.Node) bool {
-					switch m := m.(type) {
-					case *ast.CompositeLit:
-						if id, ok := m.Type.(*ast.Ident); ok && id.Name == "Config" {
-							for _, el := range m.Elts {
-								if kv, ok := el.(*ast.KeyValueExpr); ok {
-									ethConfig = append(ethConfig, [2]string{w.norm(kv.Key), w.norm(kv.Value)})
-								} else {
-									ethConfig = append(ethConfig, [2]string{"?", w.norm(el)})
-								}
-							}
-						}
-					case *ast.CallExpr:
-						if sel, ok := m.Fun.(*ast.SelectorExpr); ok && sel.Sel.Name == "VerifySeal" {
-							for _, a := range m.Args {
-								ethSealArgs = append(ethSealArgs, w.norm(a))
-							}
-						}
-					}
-					return true
-				})
-			}
 			if d.Body != nil {
 				w.inspect(d.Body)
 			}
@@ -1135,18 +1131,8 @@ func (w *walker) stmtIR(s ast.Stmt) []string {
 			}
 			return w.other(s)
 		}
-		// sort.Sort(T(x))
-		if sel, ok := call.Fun.(*ast.SelectorExpr); ok && len(call.Args) == 1 {
-			if f, isF := w.info.Uses[sel.Sel].(*types.Func); isF && f.FullName() == "sort.Sort" {
-				if conv, ok := call.Args[0].(*ast.CallExpr); ok && len(conv.Args) == 1 {
-					if tv, has := w.info.Types[conv.Fun]; has && tv.IsType() {
-						if x, ok := conv.Args[0].(*ast.Ident); ok && w.nameOf(x) != "" {
-							tn := w.norm(conv.Fun)
-							return []string{fmt.Sprintf("SSort %s %s", q(w.nameOf(x)), q(tn))}
-						}
-					}
-				}
-			}
+		if st := w.sortIR(call); st != "" {
+			return []string{st}
 		}
 		return w.other(s)
 	}
@@ -1292,4 +1278,366 @@ func (w *walker) clockSink() string {
 		}
 	}
 	return ""
+}
+
+// ---------------------------------------------------------------------------------------------------
+// sort statements: SSort slice comparator
+//   sort.Sort(T(x))                                   -> CmpNamed "T"
+//   sort.Slice / sort.SliceStable (x, func(i, j int) bool { return L REL R })
+//   slices.SortFunc / SortStableFunc (x, func(a, b T) bool|int { return ... })
+//   sort.Strings(x) / sort.Ints(x) / sort.Float64s(x)
+// The comparator is emitted as CmpKey rel via key_type ki kj: what is compared (L, R) as key terms over the two
+// elements, how (directly with < / >, or through bytes.Compare / strings.Compare ... < 0), and the type of the keys.
+// Anything else is CmpOther.
+// ---------------------------------------------------------------------------------------------------
+
+func (w *walker) funcFullName(f ast.Expr) string {
+	var id *ast.Ident
+	switch f := f.(type) {
+	case *ast.Ident:
+		id = f
+	case *ast.SelectorExpr:
+		id = f.Sel
+	}
+	if id == nil {
+		return ""
+	}
+	if fn, ok := w.info.Uses[id].(*types.Func); ok {
+		return fn.FullName()
+	}
+	return ""
+}
+
+// keyTerm: e as a key term over the element recognised by isElem
+func (w *walker) keyTerm(e ast.Expr, isElem func(ast.Expr) bool) string {
+	if isElem(e) {
+		return "KElem"
+	}
+	switch x := e.(type) {
+	case *ast.ParenExpr:
+		return w.keyTerm(x.X, isElem)
+	case *ast.CallExpr:
+		if tv, has := w.info.Types[x.Fun]; has && tv.IsType() && len(x.Args) == 1 {
+			return fmt.Sprintf("(KConv %s %s)", q(types.TypeString(tv.Type, nil)), w.keyTerm(x.Args[0], isElem))
+		}
+		if sel, ok := x.Fun.(*ast.SelectorExpr); ok && len(x.Args) == 0 {
+			if fn, isF := w.info.Uses[sel.Sel].(*types.Func); isF {
+				if sig, _ := fn.Type().(*types.Signature); sig != nil && sig.Recv() != nil {
+					return fmt.Sprintf("(KMethod %s %s)", q(fn.FullName()), w.keyTerm(sel.X, isElem))
+				}
+			}
+		}
+	case *ast.SliceExpr:
+		if x.Low == nil && x.High == nil && x.Max == nil {
+			return fmt.Sprintf("(KSliceAll %s)", w.keyTerm(x.X, isElem))
+		}
+	}
+	return "(KOther " + q(w.norm(e)) + ")"
+}
+
+func (w *walker) sameVar(a ast.Expr, obj types.Object) bool {
+	id, ok := a.(*ast.Ident)
+	return ok && obj != nil && w.info.Uses[id] == obj
+}
+
+func (w *walker) sortIR(call *ast.CallExpr) string {
+	name := w.funcFullName(call.Fun)
+	if name == "" || len(call.Args) == 0 {
+		return ""
+	}
+	other := func(x *ast.Ident) string {
+		return fmt.Sprintf("SSort %s (CmpOther %s)", q(w.nameOf(x)), q(w.norm(call)))
+	}
+	switch name {
+	case "sort.Sort", "sort.Stable":
+		if conv, ok := call.Args[0].(*ast.CallExpr); ok && len(conv.Args) == 1 {
+			if tv, has := w.info.Types[conv.Fun]; has && tv.IsType() {
+				if x, ok := conv.Args[0].(*ast.Ident); ok && w.nameOf(x) != "" {
+					return fmt.Sprintf("SSort %s (CmpNamed %s)", q(w.nameOf(x)), q(w.norm(conv.Fun)))
+				}
+			}
+		}
+		return ""
+	case "sort.Strings", "sort.Ints", "sort.Float64s":
+		if x, ok := call.Args[0].(*ast.Ident); ok && w.nameOf(x) != "" {
+			kt := map[string]string{"sort.Strings": "string", "sort.Ints": "int", "sort.Float64s": "float64"}[name]
+			return fmt.Sprintf("SSort %s (CmpKey \"<\" \"\" %s KElem KElem)", q(w.nameOf(x)), q(kt))
+		}
+		return ""
+	case "sort.Slice", "sort.SliceStable", "slices.SortFunc", "slices.SortStableFunc",
+		"golang.org/x/exp/slices.SortFunc", "golang.org/x/exp/slices.SortStableFunc":
+	default:
+		return ""
+	}
+	x, ok := call.Args[0].(*ast.Ident)
+	if !ok || w.nameOf(x) == "" || len(call.Args) != 2 {
+		return ""
+	}
+	xobj := w.info.Uses[x]
+	fl, ok := call.Args[1].(*ast.FuncLit)
+	if !ok || fl.Body == nil || len(fl.Body.List) != 1 {
+		return other(x)
+	}
+	ret, ok := fl.Body.List[0].(*ast.ReturnStmt)
+	if !ok || len(ret.Results) != 1 {
+		return other(x)
+	}
+	var params []types.Object
+	for _, f := range fl.Type.Params.List {
+		for _, n := range f.Names {
+			params = append(params, w.info.Defs[n])
+		}
+	}
+	if len(params) != 2 || params[0] == nil || params[1] == nil {
+		return other(x)
+	}
+	byIndex := strings.HasPrefix(name, "sort.")
+	elem := func(p types.Object) func(ast.Expr) bool {
+		return func(e ast.Expr) bool {
+			if byIndex { // x[p]
+				ix, ok := e.(*ast.IndexExpr)
+				return ok && w.sameVar(ix.X, xobj) && w.sameVar(ix.Index, p)
+			}
+			return w.sameVar(e, p)
+		}
+	}
+	// the returned expression: L REL R | cmp(L, R) REL 0 | cmp(L, R) (int comparators)
+	var l, r ast.Expr
+	rel, via := "", ""
+	res := ret.Results[0]
+	for {
+		if pe, isP := res.(*ast.ParenExpr); isP {
+			res = pe.X
+			continue
+		}
+		break
+	}
+	cmpCall := func(e ast.Expr) (*ast.CallExpr, string) {
+		c, ok := e.(*ast.CallExpr)
+		if !ok || len(c.Args) != 2 {
+			return nil, ""
+		}
+		switch n := w.funcFullName(c.Fun); n {
+		case "bytes.Compare", "strings.Compare":
+			return c, n
+		}
+		return nil, ""
+	}
+	switch e := res.(type) {
+	case *ast.BinaryExpr:
+		switch e.Op {
+		case token.LSS:
+			rel = "<"
+		case token.GTR:
+			rel = ">"
+		default:
+			return other(x)
+		}
+		if c, n := cmpCall(e.X); c != nil {
+			if lit, isLit := e.Y.(*ast.BasicLit); !isLit || lit.Value != "0" {
+				return other(x)
+			}
+			l, r, via = c.Args[0], c.Args[1], n
+		} else {
+			l, r = e.X, e.Y
+		}
+	case *ast.CallExpr:
+		c, n := cmpCall(e)
+		if c == nil || byIndex {
+			return other(x)
+		}
+		l, r, via, rel = c.Args[0], c.Args[1], n, "<"
+	default:
+		return other(x)
+	}
+	ki, kj := w.keyTerm(l, elem(params[0])), w.keyTerm(r, elem(params[1]))
+	if !strings.Contains(ki, "KElem") && !strings.Contains(kj, "KElem") { // written the other way round: x[j] < x[i]
+		ki, kj = w.keyTerm(l, elem(params[1])), w.keyTerm(r, elem(params[0]))
+	}
+	kt := "?"
+	if t := w.info.TypeOf(l); t != nil {
+		kt = types.TypeString(t, nil)
+	}
+	return fmt.Sprintf("SSort %s (CmpKey %s %s %s %s %s)", q(w.nameOf(x)), q(rel), q(via), q(kt), ki, kj)
+}
+
+// ---------------------------------------------------------------------------------------------------
+// ETH engine uses
+// ---------------------------------------------------------------------------------------------------
+
+func ethAnalysis(fset *token.FileSet, asts []*ast.File, info *types.Info, dir string) {
+	w := &walker{fset: fset, info: info}
+	funcs := map[types.Object]*ast.FuncDecl{}
+	pkgVars := map[types.Object]ast.Expr{}
+	for _, f := range asts {
+		for _, d := range f.Decls {
+			switch d := d.(type) {
+			case *ast.FuncDecl:
+				if d.Recv == nil {
+					funcs[info.Defs[d.Name]] = d
+				}
+			case *ast.GenDecl:
+				if d.Tok != token.VAR {
+					continue
+				}
+				for _, sp := range d.Specs {
+					if vs, ok := sp.(*ast.ValueSpec); ok && len(vs.Names) == len(vs.Values) {
+						for i, n := range vs.Names {
+							pkgVars[info.Defs[n]] = vs.Values[i]
+						}
+					}
+				}
+			}
+		}
+	}
+	// writes(obj): number of statements anywhere in the package that assign to obj or to a part of it, or take its
+	// address, other than its defining statement
+	rootObj := func(e ast.Expr) types.Object {
+		for {
+			switch x := e.(type) {
+			case *ast.ParenExpr:
+				e = x.X
+			case *ast.SelectorExpr:
+				e = x.X
+			case *ast.IndexExpr:
+				e = x.X
+			case *ast.StarExpr:
+				e = x.X
+			case *ast.Ident:
+				if o := info.Uses[x]; o != nil {
+					return o
+				}
+				return info.Defs[x]
+			default:
+				return nil
+			}
+		}
+	}
+	writes := func(obj types.Object) int {
+		n := 0
+		for _, f := range asts {
+			ast.Inspect(f, func(m ast.Node) bool {
+				switch m := m.(type) {
+				case *ast.AssignStmt:
+					for _, l := range m.Lhs {
+						if id, isId := l.(*ast.Ident); isId && m.Tok == token.DEFINE && info.Defs[id] == obj {
+							continue
+						}
+						if rootObj(l) == obj {
+							n++
+						}
+					}
+				case *ast.UnaryExpr:
+					if m.Op == token.AND && rootObj(m.X) == obj {
+						n++
+					}
+				case *ast.IncDecStmt:
+					if rootObj(m.X) == obj {
+						n++
+					}
+				}
+				return true
+			})
+		}
+		return n
+	}
+	var resolve func(e ast.Expr, body *ast.BlockStmt, depth int) [][2]string
+	resolve = func(e ast.Expr, body *ast.BlockStmt, depth int) [][2]string {
+		unresolved := [][2]string{{"?", w.norm(e)}}
+		if depth > 4 {
+			return unresolved
+		}
+		switch x := e.(type) {
+		case *ast.ParenExpr:
+			return resolve(x.X, body, depth+1)
+		case *ast.CompositeLit:
+			var out [][2]string
+			for _, el := range x.Elts {
+				if kv, ok := el.(*ast.KeyValueExpr); ok {
+					out = append(out, [2]string{w.norm(kv.Key), w.norm(kv.Value)})
+				} else {
+					out = append(out, [2]string{"?", w.norm(el)})
+				}
+			}
+			if out == nil {
+				out = [][2]string{}
+			}
+			return out
+		case *ast.Ident:
+			obj := info.Uses[x]
+			if obj == nil {
+				return unresolved
+			}
+			if v, ok := pkgVars[obj]; ok && writes(obj) == 0 {
+				return resolve(v, nil, depth+1)
+			}
+			if body != nil && writes(obj) == 0 { // a local defined once: x := <expr>
+				var def ast.Expr
+				ast.Inspect(body, func(m ast.Node) bool {
+					if as, ok := m.(*ast.AssignStmt); ok && as.Tok == token.DEFINE && len(as.Lhs) == len(as.Rhs) {
+						for i, l := range as.Lhs {
+							if id, isId := l.(*ast.Ident); isId && info.Defs[id] == obj {
+								def = as.Rhs[i]
+							}
+						}
+					}
+					return true
+				})
+				if def != nil {
+					return resolve(def, body, depth+1)
+				}
+			}
+			return unresolved
+		case *ast.CallExpr: // helper() with `return <expr>` as its whole body
+			if id, ok := x.Fun.(*ast.Ident); ok && len(x.Args) == 0 {
+				if fd, ok := funcs[info.Uses[id]]; ok && fd.Body != nil && len(fd.Body.List) == 1 {
+					if ret, ok := fd.Body.List[0].(*ast.ReturnStmt); ok && len(ret.Results) == 1 {
+						return resolve(ret.Results[0], fd.Body, depth+1)
+					}
+				}
+			}
+			return unresolved
+		}
+		return unresolved
+	}
+	newObj := types.Object(nil)
+	for o, fd := range funcs {
+		if fd.Name.Name == "New" {
+			newObj = o
+		}
+	}
+	for _, f := range asts {
+		base := filepath.Base(fset.Position(f.Pos()).Filename)
+		if ethEngineFiles[base] || strings.HasSuffix(base, "_test.go") {
+			continue
+		}
+		for _, d := range f.Decls {
+			fd, ok := d.(*ast.FuncDecl)
+			if !ok || fd.Body == nil {
+				continue
+			}
+			where := filepath.ToSlash(filepath.Join(dir, base)) + ":" + recvName(fd)
+			ast.Inspect(fd.Body, func(m ast.Node) bool {
+				c, ok := m.(*ast.CallExpr)
+				if !ok {
+					return true
+				}
+				if id, isId := c.Fun.(*ast.Ident); isId && newObj != nil && info.Uses[id] == newObj && len(c.Args) > 0 {
+					ethNewUses = append(ethNewUses, ethUse{where, resolve(c.Args[0], fd.Body, 0)})
+				}
+				if sel, isSel := c.Fun.(*ast.SelectorExpr); isSel {
+					if fn, isF := info.Uses[sel.Sel].(*types.Func); isF && fn.Name() == "VerifySeal" && fn.Pkg() != nil && strings.HasSuffix(fn.Pkg().Path(), ethPkgDir) {
+						var args [][2]string
+						for i, a := range c.Args {
+							args = append(args, [2]string{fmt.Sprint(i), w.norm(a)})
+						}
+						ethSealUses = append(ethSealUses, ethUse{where, args})
+					}
+				}
+				return true
+			})
+		}
+	}
+	sort.Slice(ethNewUses, func(i, j int) bool { return ethNewUses[i].Where < ethNewUses[j].Where })
+	sort.Slice(ethSealUses, func(i, j int) bool { return ethSealUses[i].Where < ethSealUses[j].Where })
 }
